@@ -50,8 +50,9 @@ def _mds(case):
                 md.append(None)
                 continue
             rows = []
+            dl = '\t' if '\t' in txt.split('\n')[0] else ','
             for r, line in enumerate(txt.strip().split('\n')[1:]):
-                cid, v = line.split('\t')
+                cid, v = line.split(dl)
                 tok = (f * 100 + k) * 1000 + r
                 vals[tok] = _parse_cell(v)
                 rows.append([int(cid), tok])
@@ -82,8 +83,9 @@ def oracle(case):
             txt = p.get('text_files', {}).get(fn)
             if txt is None:
                 continue
+            dl = '\t' if '\t' in txt.split('\n')[0] else ','
             for line in txt.strip().split('\n')[1:]:
-                cid, v = line.split('\t')
+                cid, v = line.split(dl)
                 try:
                     v = int(v)
                 except ValueError:
